@@ -27,6 +27,9 @@ def str (s : String) : Bytes := s.toUTF8.toList
 
 def noNewlineMarker : Bytes := str "\\ No newline at end of file\n"
 
+/-- `terminator_of` in formatter.cpp: a line that came with CR LF is written with CR LF -/
+def lineEnd (l : Line) : Bytes := if l.newline = NewLine.crlf then [CR, NL] else [NL]
+
 /-- `write_hunk_as_unified` -/
 def writeHunkUnified (h : Hunk) : Bytes :=
   str "@@ -" ++ intDigits h.old.start
@@ -35,7 +38,7 @@ def writeHunkUnified (h : Hunk) : Bytes :=
     ++ (if h.new.count ≠ 1 then [44] ++ intDigits h.new.count else [])
     ++ str " @@\n"
     ++ (h.lines.flatMap fun pl =>
-          [pl.op] ++ pl.line.content ++ [NL]
+          [pl.op] ++ pl.line.content ++ lineEnd pl.line
             ++ (if pl.line.newline = NewLine.none then noNewlineMarker else []))
 
 /-- the static 5-argument `write_hunk_as_context` -/
@@ -44,7 +47,7 @@ def writeContextHalves (oldLines : List PatchLine) (oldR : Range) (newLines : Li
     match ls.getLast? with
     | none => []
     | some last =>
-      (ls.flatMap fun l => [l.op, SP] ++ l.line.content ++ [NL])
+      (ls.flatMap fun l => [l.op, SP] ++ l.line.content ++ lineEnd l.line)
         ++ (if last.line.newline = NewLine.none then noNewlineMarker else [])
   str "*** " ++ intDigits oldR.start
     ++ (if oldR.count > 1 then [44] ++ intDigits (oldR.start + oldR.count - 1) else [])
